@@ -121,18 +121,29 @@ pub(crate) mod verif_replay_pw {
     use std::io::{Cursor, Read, Seek, SeekFrom, Write};
 %(helpers)s
     /// recording device: once `rec` is set, every write is logged as (position, length, first 48 device bytes afterwards)
-    pub(crate) struct RecDev { pub inner: Cursor<Vec<u8>>, pub rec: bool, pub log: Vec<(u64, usize, Vec<u8>)> }
-    impl Read for RecDev { fn read(&mut self, b: &mut [u8]) -> std::io::Result<usize> { self.inner.read(b) } }
-    impl Seek for RecDev { fn seek(&mut self, p: SeekFrom) -> std::io::Result<u64> { self.inner.seek(p) } }
+    /// and, once armed, device operation number `fault_at` (reads, writes, seeks and flushes counted alike) fails
+    pub(crate) struct RecDev { pub inner: Cursor<Vec<u8>>, pub rec: bool, pub log: Vec<(u64, usize, Vec<u8>)>, pub ops: i64, pub fault_at: i64, pub armed: bool }
+    impl RecDev {
+        fn tick(&mut self) -> std::io::Result<()> {
+            let i = self.ops; self.ops += 1;
+            if self.armed && i == self.fault_at { return Err(std::io::Error::new(std::io::ErrorKind::Other, "injected device error")); }
+            Ok(())
+        }
+    }
+    impl Read for RecDev { fn read(&mut self, b: &mut [u8]) -> std::io::Result<usize> { self.tick()?; self.inner.read(b) } }
+    impl Seek for RecDev { fn seek(&mut self, p: SeekFrom) -> std::io::Result<u64> { self.tick()?; self.inner.seek(p) } }
     impl Write for RecDev {
         fn write(&mut self, b: &[u8]) -> std::io::Result<usize> {
+            self.tick()?;
             let pos = self.inner.position();
             let n = self.inner.write(b)?;
             if self.rec { let d = self.inner.get_ref(); let h = d[..d.len().min(48)].to_vec(); self.log.push((pos, n, h)); }
             Ok(n)
         }
-        fn flush(&mut self) -> std::io::Result<()> { Ok(()) }
+        fn flush(&mut self) -> std::io::Result<()> { self.tick()?; Ok(()) }
     }
+    pub(crate) fn arm(w: &mut PagedWriter<RecDev>, fault_at: i64) { w.writer.ops = 0; w.writer.fault_at = fault_at; w.writer.armed = fault_at >= 0; }
+    pub(crate) fn disarm(w: &mut PagedWriter<RecDev>) -> bool { w.writer.armed = false; w.writer.fault_at >= 0 && w.writer.ops > w.writer.fault_at }
     pub(crate) fn dump(tag: &str, w: &mut PagedWriter<RecDev>) {
         let pos = w.writer.inner.position();
         println!("VR {}_offset={} {}_pos={} {}_buf={} {}_dev=x{}", tag, w.offset, tag, pos, tag, vhex(&w.page_buffer), tag, vhex(w.writer.inner.get_ref()));
@@ -143,7 +154,7 @@ pub(crate) mod verif_replay_pw {
         for (i, (pos, n, h)) in w.writer.log.iter().enumerate() { println!("VR w{}={}:{}:x{}", i, pos, n, vhex(h)); }
     }
     pub(crate) fn build(stream: &[u8], pending: &[u8], p: u64, npages: u64) -> PagedWriter<RecDev> {
-        let mut w = PagedWriter::new(RecDev { inner: Cursor::new(Vec::new()), rec: false, log: Vec::new() }).unwrap();
+        let mut w = PagedWriter::new(RecDev { inner: Cursor::new(Vec::new()), rec: false, log: Vec::new(), ops: 0, fault_at: -1, armed: false }).unwrap();
         w.write_all(stream).unwrap();
         w.flush().unwrap();
         if p < npages { w.physical_seek(p * 1024).unwrap(); }
@@ -157,7 +168,7 @@ E57_DRIVER = r"""
 #[cfg(test)]
 mod verif_replay {
     use super::*;
-    use crate::paged_writer::verif_replay_pw::{build, dump, dump_log, start_recording};
+    use crate::paged_writer::verif_replay_pw::{arm, build, disarm, dump, dump_log, start_recording};
     #[test]
     fn verif_replay_case() {
         let stream: Vec<u8> = %(stream)s;
@@ -168,7 +179,9 @@ mod verif_replay {
         dump("pre", &mut e.writer);
         start_recording(&mut e.writer);
         let text = String::from_utf8(xml).unwrap();
+        arm(&mut e.writer, %(fault_at)d);
         let r = e.finalize_customized_xml(move |_s| Ok(text.clone()));
+        println!("VR fired={}", if disarm(&mut e.writer) { 1 } else { 0 });
         match r { Ok(()) => println!("VR res=ok"), Err(err) => { println!("VR res=err"); println!("NATIVE-ERROR {:?}", err); } }
         dump("post", &mut e.writer);
         dump_log(&e.writer);
@@ -200,7 +213,7 @@ class FinalizeReplay(AbsWriterReplay):
         from .spec_page import FRESH_OVERRIDE, writer_rebuild
         code = {"paged_writer.rs": PW_HELPER % dict(helpers=HELPERS),
                 "e57_writer.rs": E57_DRIVER % dict(stream=rust_bytes(pre["stream"]), pending=rust_bytes(pre["pending"]), xml=rust_bytes(pre["xml"]),
-                                                   P=pre["P"], npages=pre["npages"])}
+                                                   P=pre["P"], npages=pre["npages"], fault_at=pre.get("fault_at", -1))}
         rc, out = run_rust_test(I.crate_dir, None, code)
         kv = parse_kv(out)
         info = dict(pre={k: (len(v) if isinstance(v, bytes) else v) for k, v in pre.items()}, rust=code["e57_writer.rs"])
@@ -219,6 +232,8 @@ class FinalizeReplay(AbsWriterReplay):
                     return False, "native pre-state differs from the model's pre-state", info
                 sc.res = parse_result(kv)
                 _fin_patch(sc, pre, kv)
+                if kv.get("fired") == "1":
+                    sc.holder["w"].fields[writer_fields(I)["writer"]].log.append(("fault", "native", pre.get("fault_at", -1)))
                 # the write log is not observable natively: ordering claims are re-evaluated from the final device only
                 vals = {}
                 f = writer_fields(I)
@@ -322,5 +337,6 @@ def ordering_scenarios(tier="quick"):
 def fault_scenarios(tier="quick"):
     return [
         Scenario("finalize with one page-layer error at any operation", finalize_abs_scenario(2100, fault=True), finalize_fault_claims, max_paths=1500),
-        Scenario("finalize on the real page layer with one device error at any operation", finalize_real_scenario(600, fault=True), finalize_real_claims, max_paths=3000, time_budget=1200),
+        Scenario("finalize on the real page layer with one device error at any operation", finalize_real_scenario(600, fault=True), finalize_real_claims, max_paths=3000, time_budget=1200,
+                 replayer=FinalizeReplay(True)),
     ]
